@@ -263,6 +263,11 @@ def pipeline_cases(ctx, tab):
         start = ydm_to_ms(year, doy, rng.randint(0, 86000000 - 20000))
         if k in (2, 3) or (k >= 0 and k % 7 == 6):
             start = ydm_to_ms(year, 1 if k == 2 else doy, 0)       # the first line at exactly 00:00:00.000 (k = 2: on 1 January)
+        if k < 0:
+            # the long pass crosses UTC midnight about 1000 lines after its start: year and day of year of the FIRST line hold
+            # for every line of the pass (not 31 December of a leap year: 2004 + 366/365 = 2005 + 1/365)
+            year, doy = (2003, rng.randint(2, 300)) if fmt.startswith("klm") else (2000, rng.randint(2, 300))
+            start = ydm_to_ms(year, doy, 86400000 - 170000)
         tp = timesgen.TimePass(fmt, list(range(1, n + 1)), start)
         b = tp.build(ctx, rng)
         if fmt.startswith("klm"):
@@ -285,7 +290,7 @@ def pipeline_cases(ctx, tab):
         corr = Fraction(repr(1.0 - 0.0334 * math.cos(2.0 * math.pi * (d - 2) / 365.25)))
         payload = {"fmt": fmt, "start": start, "n": n, "sat": sat, "stream": "pipeline"}
         nsol = 3 if fmt.startswith("klm") else 2
-        check_lines = range(n) if n <= 64 else sorted(set([0, 1, n // 2, 5460, 5461, 5462, 8191, 8192, n - 2, n - 1] +
+        check_lines = range(n) if n <= 64 else sorted(set([0, 1, n // 2, 1023, 1024, 2047, 2048, 4095, 4096, 5460, 5461, 5462, 8191, 8192, n - 2, n - 1] +
                                                          rng.sample(range(n), 12)) & set(range(n)))
         for chan in range(nsol):
             for line in check_lines:
